@@ -12,9 +12,9 @@ From RsddV Require Import Model.VarOrder Model.VTree Model.DTree
 Theorem C14_order_new_wf : forall o n, Permutation o (seq 0 n) ->
   exists r, order_new o = Some r /\ wf_order r /\ pos_to_var r = o /\ num_vars r = n.
 Proof. exact order_new_wf. Qed.
-Print Assumptions C14_order_new_wf.
 Check C14_order_new_wf : forall o n, Permutation o (seq 0 n) ->
   exists r, order_new o = Some r /\ wf_order r /\ pos_to_var r = o /\ num_vars r = n.
+Print Assumptions C14_order_new_wf.
 
 (* the guard is real: a label >= len makes VarOrder::new panic *)
 Theorem C14_order_new_panics : forall o x, In x o -> length o <= x -> order_new o = None.
@@ -187,34 +187,37 @@ Print Assumptions C14_constructors_flatten.
    the code's choice; dtree; vtree; manager; an lca and a prime test *)
 Example C14_nonvacuous :
   let cls := [[(0, true); (1, false)]; [(1, true); (2, true)]; [(2, true); (3, true)]; [(5, true)]] in
-  exists r d vt m,
-    min_fill_order pick_minfill cls = Some r /\ wf_order r /\ num_vars r = 6 /\
-    from_cnf cls (pos_to_var r) = Some d /\ Permutation (leaves d) cls /\
-    from_dtree d = Some vt /\ Permutation (flatten vt) [0; 1; 2; 3; 5] /\
-    manager_new vt = Some m /\ mgr_num_vars m = 5 /\
-    valid vt [false] /\ valid vt [true; true] /\
-    mgr_lca m (idx vt [false]) (idx vt [true; true]) = Some (idx vt []) /\
-    is_prime_index (idx vt [false]) (idx vt [true; true]) = true.
+  match min_fill_order pick_minfill cls with
+  | Some r =>
+    match from_cnf cls (pos_to_var r) with
+    | Some d =>
+      match from_dtree d with
+      | Some vt =>
+        match manager_new vt, subtree vt [false], subtree vt [true; true] with
+        | Some m, Some _, Some _ =>
+          (length (leaves d) =? 4) && (if list_eq_dec Nat.eq_dec (flatten vt) [5; 1; 0; 2; 3] then true else false)
+          && (mgr_num_vars m =? 5)
+          && match mgr_lca m (idx vt [false]) (idx vt [true; true]) with
+             | Some a => a =? idx vt [] | None => false end
+          && is_prime_index (idx vt [false]) (idx vt [true; true])
+        | _, _, _ => false
+        end
+      | None => false
+      end
+    | None => false
+    end
+  | None => false
+  end = true.
+Proof. vm_compute. reflexivity. Qed.
+
+(* a well-formed order to extend (hypothesis of C14_new_last_wf), and FORCE's guard *)
+Example C14_nonvacuous_order :
+  (exists r, order_new [2; 0; 1] = Some r /\ wf_order r) /\
+  force_guard [[(0, true); (1, false)]; [(1, true)]].
 Proof.
-  cbv zeta.
-  destruct (C14_minfill_perm pick_minfill
-    [[(0, true); (1, false)]; [(1, true); (2, true)]; [(2, true); (3, true)]; [(5, true)]]
-    C14_pick_minfill_valid) as (ord & r & _ & _ & Er & W & _ & Nv).
-  exists r. rewrite Er.
-  assert (Eo : min_fill_order pick_minfill
-    [[(0, true); (1, false)]; [(1, true); (2, true)]; [(2, true); (3, true)]; [(5, true)]] = Some r) by exact Er.
-  vm_compute in Eo. inversion Eo; subst r. clear Eo Er.
-  eexists. eexists. eexists.
-  split; [reflexivity|]. split; [exact W|]. split; [exact Nv|].
-  split; [vm_compute; reflexivity|].
-  split; [vm_compute; repeat first [apply Permutation_refl | apply perm_skip | (eapply Permutation_trans; [|apply perm_swap])]|].
-  split; [vm_compute; reflexivity|].
-  split; [apply NoDup_Permutation; [repeat constructor; simpl; intuition discriminate
-                                   |repeat constructor; simpl; intuition discriminate
-                                   |intros x; simpl; intuition]|].
-  split; [vm_compute; reflexivity|].
-  split; [vm_compute; reflexivity|].
-  split; [eexists; vm_compute; reflexivity|].
-  split; [eexists; vm_compute; reflexivity|].
-  split; vm_compute; reflexivity.
+  split.
+  - destruct (C14_order_new_wf [2; 0; 1] 3) as (r & E & W & _).
+    + apply (Permutation_cons_append [0; 1] 2).
+    + exists r. split; assumption.
+  - split; [discriminate|]. right. intros cl [<-|[<-|[]]]; discriminate.
 Qed.
